@@ -56,6 +56,18 @@ CHECKS = {
    technique="runtime monitor: exact scaling oracle (big.Int times power of ten rounded into the member set) and exact Frexp invariants, per DefaultRoundingMode phase",
    text="New is observed for significands {+/-1, powers of ten, int64 extremes, tie shapes, random} x exponents -6300..6300 (dense at both range ends) and int extremes; Ldexp for operands at both exponent ends with compensating exponents up to +/-12400, threshold magnitudes, zeros/specials; Frexp on all classes with 0.1<=|frac|<1, frac*10^e == d exactly and Ldexp(Frexp(d)) == d. Exploration.",
    ref="DESIGN.md §5 C11"),
+ "C12": dict(
+   technique="runtime monitor: independent IEEE 754-2008 BID decoder over marshalled bytes cross-checked against two other observers (Rat, harness-read String); byte-level round-trip, aliasing and length monitors",
+   text="MarshalBinary is observed for injected bit patterns (every biased exponent x both coefficient forms, uniform bytes, specials with payload garbage) and for values produced by Parse, New and arithmetic; the 16 bytes are decoded as big-endian BID by the harness and must denote the value seen by Rat and by the harness's reading of String, with 0x78/0x7C prefixes and the steering form only above 2^113. UnmarshalBinary is observed on slices of length 0..64: accepts exactly length 16, Marshal(Unmarshal(b)) == b, inputs untouched, outputs fresh. Exploration.",
+   ref="DESIGN.md §5 C12"),
+ "C13": dict(
+   technique="runtime monitor: RFC 8259 regex + json.Valid + harness numeral reader on produced tokens; exact-value oracle and Parse-agreement on consumed tokens; encoding/json container round trips; receiver-unchanged monitors",
+   text="MarshalJSON is observed on all value classes (valid JSON number, exact value, sign, minimal digits; *json.UnsupportedValueError for NaN/Inf) and round-tripped directly, through struct/pointer/slice/map and json.Number; UnmarshalJSON on generated JSON number tokens of any length/exponent (exact rounded value, agreement with Parse, error on overflow), null (receiver untouched), other JSON values (error, receiver untouched), mutated bytes (no panic, never a silently wrong value) and hand-built documents with whitespace and nesting, under each DefaultRoundingMode. Exploration.",
+   ref="DESIGN.md §5 C13"),
+ "C14": dict(
+   technique="runtime monitor: big.Int representability oracle for Compose (exact-or-error), exact inverse check for Decompose with nil/short/roomy buffers",
+   text="Compose is observed on coefficients of 0..400 bytes (thresholds 16/17 and 32/33, leading zero bytes), foldable c*10^k and unfoldable c*10^k+1 shapes, exponents outside -6176..6111 compensated by the coefficient, int32 extremes, all forms; the oracle decides representability in big.Int and requires the exact value or an error, never rounding, input untouched. Decompose is observed on every value class with three buffer regimes and must be inverted exactly by Compose. Exploration.",
+   ref="DESIGN.md §5 C14"),
 }
 
 PENDING = "monitor for this property is not built yet in this revision (work in progress; see DESIGN.md §5 for the planned monitor)"
